@@ -61,6 +61,8 @@ def generate(unit):
             n_ret += 1
             penv = dict(o.env)
             penv["result"] = o.val if o.val is not None else VNone()
+            if unit.lenient and unit.returns in ("str", "int", "bool") and type(penv["result"]).__name__ == "VObj":
+                penv["result"] = fresh_val("result", unit.returns)      # a havocked (unsupported) expression of the declared result type
             penv["__old__"] = env["__old__"]
             penv = eng.with_ghost(unit, penv)
             line = o.line or (stmts[-1].end_lineno if stmts else fn.lineno)
